@@ -17,6 +17,7 @@ EXPLANATION = (
     '_GROUP_STATUS_TIMEOUT == 300.0, event set in the steady-state group-status case, handler requests group status under is_connected and the loop '
     're-arms, task created on reaching CONNECTED; R4 unchanged refresh data notifies nobody (C12.R1 re-used). R5 a lost connection is followed by a new one '
     '(C07.R2 + C07.R3 re-evaluated), without which nothing is refreshed.'
+    ' Rounds 7-8: R2 also: _notify_connection_changed passes every change on (no condition, no remembered state).'
 )
 ASSUMPTIONS = ["asyncio.timeout/reschedule semantics as documented"]
 FLOORS = {"C14.R1": 8, "C14.R2": 3, "C14.R3": 8, "C14.R4": 4, "C14.R5": 1, "C14.R6": 1, "C14.R7": 1, "C14.R8": 1}
